@@ -15,7 +15,9 @@ Oracles are written from the statements in properties.jsonl:
         5. no [non-edges] entry is an existing edge of the generated molecule, and
         6. if [patterns] exist, at least one pattern holds for the identified atoms (block attributes).
       result = {(type, atoms, version) -> parameters} (later DEFINED link wins for equal keys), the bond edges
-      (consecutive atoms of bonds/angles/constraints/dihedrals and [edges] entries) and the replaced attributes.
+      (consecutive atoms of bonds/angles/constraints/dihedrals and [edges] entries) and the replaced attributes
+      (atype, charge): an atom carries a link's replacement iff an APPLIED instance identifies it, otherwise it is the
+      verbatim copy of its block atom -- in particular where clause 5 or 6 rejects the instance.
   Clause 5 speaks about the generated molecule, therefore the contract is checked as a consistency condition of the
   generated molecule M:  M == blocks + instances(links, graph, edges(M)).  If no consistent molecule exists at all
   (a link that forbids an edge it creates itself) the world is ill-posed and is not judged.
@@ -43,6 +45,7 @@ BLOCKS = {
     "A": {"atoms": [("X", "tx"), ("Y", "ty")], "bond": ("1", "0.10", "100")},
     "B": {"atoms": [("X", "tq"), ("Y", "tq")], "bond": ("1", "0.20", "200")},
 }
+BLOCK_CHARGE = 0.0                      # every block atom is written with charge 0.0
 ORDERS = [1, 2, -1, ">", ">>", "<", "*"]
 EDGE_TYPES = ("bonds", "angles", "dihedrals", "constraints", "cmap")   # interactions whose consecutive atoms are bonded
 
@@ -351,7 +354,7 @@ def atom_info(w):
     info = {}
     for i in range(w["n"]):
         for an, at in BLOCKS[w["names"][i]]["atoms"]:
-            info[(w["resids"][i], an)] = {"atomname": an, "atype": at, "resname": w["names"][i]}
+            info[(w["resids"][i], an)] = {"atomname": an, "atype": at, "resname": w["names"][i], "charge": BLOCK_CHARGE}
     return info
 
 
@@ -415,7 +418,8 @@ def build(links, w, applied):
                 repl[(m[a["key"]], k)] = v
     attrs = {}
     for ident, d in info.items():
-        attrs[ident] = {"resname": d["resname"], "atype": repl.get((ident, "atype"), d["atype"])}
+        attrs[ident] = {"resname": d["resname"], "atype": repl.get((ident, "atype"), d["atype"]),
+                        "charge": repl.get((ident, "charge"), d["charge"])}
     return {"inter": inter, "edges": edges, "attrs": attrs, "alt": alt}
 
 
@@ -541,7 +545,8 @@ def observe(meta):
             key = (t, tuple(ident[a] for a in it.atoms), it.meta.get("version", 1))
             inter.setdefault(key, []).append(tuple(it.parameters))
     edges = {frozenset((ident[a], ident[b])) for a, b in mol.edges}
-    attrs = {ident[n]: {"resname": mol.nodes[n].get("resname"), "atype": mol.nodes[n].get("atype")} for n in mol.nodes}
+    attrs = {ident[n]: {"resname": mol.nodes[n].get("resname"), "atype": mol.nodes[n].get("atype"), "charge": mol.nodes[n].get("charge")}
+             for n in mol.nodes}
     return {"inter": inter, "edges": edges, "attrs": attrs}
 
 
@@ -929,6 +934,74 @@ def pair_pool():
     return pool
 
 
+def replace_veto_family(thorough):
+    """links that REPLACE atom attributes (atype and/or charge) and are vetoed on some residue windows only: by
+    [ patterns ] (one or two alternatives looking at the residue name / atom type of the link's own or the neighbouring
+    residue) and/or by [ non-edges ].  The attributes a veto looks at are never replaced by any link of the world
+    (except in the `self` variant with numeric orders, where every atom is identified by at most one instance), so the
+    block-attribute reading of clause 6 and any evolving-molecule reading coincide: the worlds are judged by the
+    ordinary oracle (replacement present iff the instance is applied).
+    returns [(links, world-set name)]"""
+    out = []
+    o_all = list(ORDERS) if thorough else [1, ">", -1, "*"]
+    o_few = list(ORDERS) if thorough else [1, ">"]
+    o_num = [1, -1, 2] if thorough else [1, -1]
+    small = "plain" if thorough else "small"
+
+    def two(o, rep0=None, rep1=None, p="a", **kw):
+        a0, a1 = atom(0, "Y", AB, replace=rep0), atom(o, "X", AB, replace=rep1)
+        return link([a0, a1], [("bonds", [a0["key"], a1["key"]], P[p], None)], **kw), a0["key"], a1["key"]
+
+    for o in o_all:
+        kx = prefix(o) + "X"
+        # (a1) one pattern on the NEIGHBOUR's atom type: applies only in front of an A residue; re-types its own atom
+        out.append(([two(o, rep0={"atype": "QX"}, patterns=[[(kx, {"atype": "tx"})]], tag="rp neighbour-type %s" % o)[0]], small))
+        # (a2) two alternatives (own residue is B | neighbour atom has type tx): fails on the window A->B only
+        out.append(([two(o, rep0={"atype": "QN"}, rep1={"charge": -0.5},
+                         patterns=[[("Y", {"resname": "B"}), (kx, {})], [("Y", {}), (kx, {"atype": "tx"})]], tag="rp two alternatives %s" % o)[0]], small))
+        # (a3) marker idiom: no interaction, one [ edges ] entry, atype AND charge replaced; alternatives on neighbour type / both names
+        a0, a1 = atom(0, "Y", AB, replace={"atype": "QC", "charge": 0.25}), atom(o, "X", AB)
+        out.append(([link([a0, a1], [], edges=[("Y", kx, None)], patterns=[[(kx, {"atype": "tx"})], [("Y", {"resname": "B"}), (kx, {"resname": "B"})]],
+                          tag="rp marker edges-only %s" % o)], small))
+    for o in o_few:
+        kx = prefix(o) + "X"
+        # (a4) both atoms replaced, a pattern that never holds: no replacement anywhere
+        out.append(([two(o, rep0={"atype": "QX"}, rep1={"atype": "QZ", "charge": 1.0}, patterns=[[(kx, {"atype": "zz"})], [("Y", {"resname": "C"})]],
+                         tag="rp never %s" % o)[0]], small))
+        # (a5) name choice in a pattern + replace on the neighbour atom only
+        out.append(([two(o, rep1={"atype": "QM"}, patterns=[[("Y", {"resname": AB, "atype": "ty"})]], tag="rp own-type choice %s" % o)[0]], small))
+        # (b1) [ non-edges ] on an edge that exists inside the reference residue, restricted by the type of its far atom:
+        #      vetoed iff the reference residue is A; replacements on two atoms
+        a0, a1, a2 = atom(0, "Y", AB), atom(o, "X", AB, replace={"charge": 0.5}), atom(0, "X", AB, replace={"atype": "QE"})
+        out.append(([link([a0, a1, a2], [("bonds", ["Y", kx], P["a"], None)], non_edges=[("X", 0, "Y", {"atype": "ty"})], tag="rn intra typed %s" % o)], small))
+    for o in o_num:
+        kx, ky = prefix(o) + "X", prefix(o) + "Y"
+        # (a6) the pattern looks at the attribute the link itself replaces (numeric order: one instance per atom)
+        out.append(([two(o, rep0={"atype": "QS"}, patterns=[[("Y", {"atype": "ty"})]], tag="rp self %s" % o)[0]], small))
+        # (b2) the forbidden edge is made by a link defined EARLIER (only between two A residues); the later link bonds
+        #      Y-Y, re-types its Y and is vetoed exactly on those windows
+        first = link([atom(0, "Y", "A"), atom(o, "X", "A")], [("bonds", ["Y", kx], P["a"], None)], tag="bond Y%s A-A" % kx)
+        a0, a1 = atom(0, "Y", AB, replace={"atype": "QE", "charge": -1.0}), atom(o, "Y", AB)
+        out.append(([first, link([a0, a1], [("bonds", ["Y", ky], P["b"], None)], non_edges=[("Y", o, "X", {})], tag="rn unless Y-%s" % kx)], small))
+        # (ab) [ non-edges ] AND [ patterns ] on one replacing link
+        a0, a1, a2 = atom(0, "Y", AB, replace={"atype": "QE"}), atom(o, "Y", AB, replace={"charge": 0.75}), atom(o, "X", AB)
+        out.append(([first, link([a0, a1, a2], [("bonds", ["Y", ky], P["b"], None)], non_edges=[("Y", o, "X", {})],
+                                 patterns=[[(kx, {"atype": "tx"})], [("Y", {"resname": "B"}), (ky, {"resname": "B"})]], tag="rnp unless Y-%s" % kx)], small))
+    # 3-residue links
+    ang = [("angles", ["Y", "+X", "++X"], P["ang"], None)]
+    out.append(([link([atom(0, "Y", AB, replace={"atype": "QA"}), atom(1, "X", AB, replace={"charge": 0.1}), atom(2, "X", AB)], ang,
+                      patterns=[[("++X", {"atype": "tx"})]], tag="rp 3res last-type")], "plain"))
+    out.append(([link([atom(0, "Y", AB, replace={"atype": "QH"}), atom(1, "X", AB), atom(2, "X", AB, replace={"charge": -0.25})], ang,
+                      patterns=[[("+X", {"resname": "B"})], [("Y", {"atype": "ty"}), ("++X", {"atype": "tq"})]], tag="rp 3res two alternatives")], "plain"))
+    out.append(([link([atom(0, "Y", AB), atom(1, "X", AB), atom(2, "X", AB, replace={"atype": "QT"}), atom(0, "X", AB)], ang,
+                      non_edges=[("X", 0, "Y", {"atype": "tq"})], tag="rn 3res intra typed")], "plain"))
+    if thorough:
+        a = [atom(0, "Y", AB, replace={"atype": "QG"}), atom(">", "X", AB, replace={"charge": 0.2}), atom(">>", "X", AB)]
+        out.append(([link(a, [("angles", ["Y", ">X", ">>X"], P["ang"], None)], patterns=[[(">>X", {"atype": "tx"})], [("Y", {"resname": "B"})]],
+                          tag="rp 3res > two alternatives")], "plain"))
+    return out
+
+
 ITP_DANGLING = [
     ("bond Y+X", [("bonds", (2, 3), P["a"])]),
     ("bond Y+Y", [("bonds", (2, 4), P["a"])]),
@@ -962,6 +1035,9 @@ def c02_specs(thorough):
     if thorough:
         for i, j, k in itertools.combinations(range(len(pool)), 3):
             specs.append(({"syntax": "ff", "links": [pool[i], pool[j], pool[k]]}, ("plain",), False))
+    # replacing links vetoed on some windows only ([ patterns ] / [ non-edges ])
+    for lks, wset in replace_veto_family(thorough):
+        specs.append(({"syntax": "ff", "links": lks, "family": "replace-veto"}, (wset,), False))
     # a forbidden edge that exists before the vetoed link is processed, `from` atom outside the reference residue
     specs.append(({"syntax": "ff", "links": [
         link([atom(0, "Y", AB), atom(1, "X", AB)], [("bonds", ["Y", "+X"], P["a"], None)], tag="bond Y+X"),
@@ -990,6 +1066,8 @@ def run_c02(ctx, res):
         sets = {"plain": graph_worlds(nmax, ctx.seed), "label": graph_worlds(4, ctx.seed + 1, labelled=True),
                 "paths": path_worlds((5, 6) if not ctx.thorough else (5, 6, 7, 8))}
         paths = {k: write_world_files(scratch, v, k) for k, v in sets.items()}
+        small = [i for i, w in enumerate(sets["plain"]) if w["n"] <= 3]
+        sets["small"], paths["small"] = [sets["plain"][i] for i in small], [paths["plain"][i] for i in small]
         specs = c02_specs(ctx.thorough)
         jobs = []
         for jid, (spec, names, both) in enumerate(specs):
@@ -998,6 +1076,7 @@ def run_c02(ctx, res):
             outs = pool.map(c02_job, jobs, chunksize=1)
         counts, illposed = {}, 0
         viols = {}
+        fam = [o for (spec, _, _), o in zip(specs, outs) if spec.get("family") == "replace-veto"]
         for o in outs:
             res.evaluations += o["evaluations"]
             res.nontrivial += o["nontrivial"]
@@ -1027,12 +1106,16 @@ def run_c02(ctx, res):
                      "those orders x shapes{path, centred, triangle via [edges], isolated third residue}%s; one feature at a time on base links "
                      "(extra attribute, atom-name choice, link-level resname, replace, [edges], edges-only, non-bond interaction, [patterns] x4, versions, "
                      "[non-edges] x5 (+2 whose `from` atom is outside the reference residue), conflicting resnames in one residue, chain-end marker, 3-residue variants); "
+                     "%d force fields whose links REPLACE atom type and/or charge and are vetoed on some windows only (1-2 alternative [patterns] on the "
+                     "own/neighbouring residue's name or atom type, [non-edges] on a typed intra-residue edge or on an edge made by an earlier link, both; "
+                     "2- and 3-residue links), on graphs with <= %s nodes: %d evaluations, %d non-trivial; "
                      "every 6th (thorough: every) 4-residue link over ordered triples x {path, star, ring}; labelled [edges] links; all unordered pairs of a pool of 12 links in BOTH "
                      "definition orders; %d polyply-style monomer .itp worlds with dangling bonds/angles/dihedrals/constraints (`Y +X`, `X Y +X`, "
                      "`Y +X ++X`, ...); monomers from .itp + links from .ff in both reading orders.  x residue graphs: every connected graph on <= %d "
                      "nodes (networkx atlas) x every resname assignment over {A,B} x {resids 1..n in node order, one seeded shuffled assignment} = %d "
                      "graph worlds (+ %d with linktype-labelled residue edges for the labelled links, + %d linear chains of length 5..%d for the dangling-window clause)"
                      % (n_ff, "; all triples of the pool" if ctx.thorough else "",
+                        len(fam), "5" if ctx.thorough else "3 (3-residue links: 4)", sum(o["evaluations"] for o in fam), sum(o["nontrivial"] for o in fam),
                         2 * len(ITP_DANGLING) + 2, nmax, len(sets["plain"]), len(sets["label"]), len(sets["paths"]), 8 if ctx.thorough else 6))
         res.rule = ("world = (force-field files, residue graph); MapToMolecule.run_molecule then ApplyLinks.run_molecule on the real tree; interactions, "
                     "edges and atom attributes of meta.molecule compared in both directions with link_instances (oracle from the statement).  "
